@@ -139,13 +139,13 @@ Section Close.
       mini_disconnect k c active =
       (mkM (m_next k) (filter (fun p => not_c c (fst p)) (m_uniq k)) names (filter (fun p => not_c c (fst p)) (m_acq k))
            (filter (fun p => not_c c (fst p)) (m_rules k)) pend (filter (not_c c) (m_mons k)) (filter (not_c c) (m_completed k))
-           (m_maxuser k) (m_maxrules k) (m_baseusers k),
+           (m_maxuser k) (m_maxrules k) (m_baseusers k) (m_clock k) (m_acts k),
        (o2 ++ (if mem c (map fst (m_uniq k)) then [(MON, Bye c)] else [])) ++ o5).
   Proof.
     unfold mini_disconnect, td_names, td_pending, td_lists, td_monitor, td_rules, set_rules, set_names, set_uniq, set_mons, set_completed, set_pend, owned.
-    cbn [m_names m_acq m_uniq m_next m_rules m_pend m_mons m_completed m_maxuser m_maxrules m_baseusers].
+    cbn [m_names m_acq m_uniq m_next m_rules m_pend m_mons m_completed m_maxuser m_maxrules m_baseusers m_clock m_acts].
     destruct (release_names (m_names k) c (rev (map snd (filter (fun p => fst p =? c) (m_acq k))))) as [names o2] eqn:E1.
-    cbn [m_names m_acq m_uniq m_next m_rules m_pend m_mons m_completed m_maxuser m_maxrules m_baseusers].
+    cbn [m_names m_acq m_uniq m_next m_rules m_pend m_mons m_completed m_maxuser m_maxrules m_baseusers m_clock m_acts].
     destruct (drop_pending (m_pend k) c) as [pend o5] eqn:E2.
     exists names, o2, pend, o5. repeat split.
   Qed.
@@ -255,6 +255,9 @@ Proof.
     + specialize (IH nm c dnq n). destruct (acquire t nm c dnq) as [[t' j] o]. intros x. rewrite !queue_cons. destruct (bytes_eqb n n0); [auto|apply IH].
 Qed.
 
+Lemma covers_ext k k1 : m_names k1 = m_names k -> m_acq k1 = m_acq k -> owned_covers k -> owned_covers k1.
+Proof. intros E1 E2 H n x. unfold owned_covers in H. rewrite E1, E2. apply H. Qed.
+
 Lemma dispatch_covers k c a m : owned_covers k -> owned_covers (fst (fst (mini_dispatch k c a m))).
 Proof.
   intros Hcov. unfold mini_dispatch.
@@ -264,18 +267,31 @@ Proof.
   - destruct a.
     + destruct (is_request_name m).
       * pose proof (queue_acquire (m_names k) (arg_string m) c (negb (N.land (rn_flags m) DBUS_NAME_FLAG_DO_NOT_QUEUE =? 0))) as Hq.
-        destruct (acquire (m_names k) (arg_string m) c _) as [[names joined] owner]. cbn [fst set_names].
-        intros n x Hin. cbn [m_names m_acq] in *. destruct (Hq n x Hin) as [H|(-> & En & ->)].
-        -- destruct (Hcov n x H) as (n' & E & Ha). exists n'. split; [exact E|]. destruct joined; [apply in_app_iff; left|]; exact Ha.
-        -- exists (arg_string m). split; [exact En|]. apply in_app_iff. right. left. reflexivity.
-      * destruct (is_add_match m); [destruct (m_maxrules k <=? n_rules k c); exact Hcov|].
+        destruct (acquire (m_names k) (arg_string m) c _) as [[names joined] owner].
+        set (k1 := set_names k names (if joined then m_acq k ++ [(c, arg_string m)] else m_acq k)).
+        assert (H1 : owned_covers k1).
+        { intros n x Hin. cbn [k1 set_names m_names m_acq] in *. destruct (Hq n x Hin) as [H|(-> & En & ->)].
+          - destruct (Hcov n x H) as (n' & E & Ha). exists n'. split; [exact E|]. destruct joined; [apply in_app_iff; left|]; exact Ha.
+          - exists (arg_string m). split; [exact En|]. apply in_app_iff. right. left. reflexivity. }
+        destruct owner; [|exact H1].
+        destruct (find _ (m_acts k)) as [[[n0 f0] es]|]; [|exact H1].
+        cbn [fst]. apply (covers_ext k1); [reflexivity|reflexivity|exact H1].
+      * destruct (is_start_service m).
+        { destruct (queue_of (m_names k) (arg_string m)); [|exact Hcov]. destruct (service_delay (arg_string m)); [|exact Hcov].
+          cbn [fst]. apply (covers_ext k); [reflexivity|reflexivity|exact Hcov]. }
+        destruct (is_add_match m); [destruct (m_maxrules k <=? n_rules k c); exact Hcov|].
         destruct (is_become_monitor m); [|exact Hcov].
         pose proof (td_names_covers k c (owned k c) false Hcov (fun n' H => H)) as H2.
         destruct (td_names k c (owned k c) false) as [k2 o2]. cbn [fst] in H2.
         unfold td_pending, td_rules. cbn [set_rules set_mons m_pend]. destruct (drop_pending _ c) as [pend errs]. cbn [fst]. exact H2.
     + destruct (is_hello m); [|exact Hcov]. destruct (negb _); [exact Hcov|]. destruct (m_maxuser k <=? n_users k); exact Hcov.
-  - destruct a; [|exact Hcov]. destruct (resolve k d); exact Hcov.
+  - destruct a; [|exact Hcov]. destruct (resolve k d); [exact Hcov|].
+    destruct (N.land (msg_flags m) DBUS_HEADER_FLAG_NO_AUTO_START =? 0); [|exact Hcov]. destruct (service_delay d); [|exact Hcov].
+    cbn [fst]. apply (covers_ext k); [reflexivity|reflexivity|exact Hcov].
 Qed.
+
+Lemma tick_covers k d : owned_covers k -> owned_covers (fst (mini_tick k d)).
+Proof. intros H. unfold mini_tick. cbn [fst]. apply (covers_ext k); [reflexivity|reflexivity|exact H]. Qed.
 
 Lemma disconnect_covers k c a : owned_covers k -> owned_covers (fst (mini_disconnect k c a)).
 Proof.
@@ -293,5 +309,80 @@ Proof.
   apply (run_core (mini_ops uid) cf owned_covers).
   - intros k c a m. apply dispatch_covers.
   - intros k c a. apply disconnect_covers.
+  - intros k d. apply tick_covers.
   - intros n x H. destruct H.
+Qed.
+
+(* ---- pending activations ------------------------------------------------------------ *)
+(* What the C does (bus/activation.c): a requester's entry STAYS in the pending activation when the
+   requester disconnects; try_send_activation_failure, bus_activation_service_created and
+   bus_activation_send_pending_auto_activation_messages skip it because
+   dbus_connection_get_is_connected (entry->connection) is false.  So the invariant is not "no entry
+   mentions a departed connection" but: nothing is ever ADDRESSED to one. *)
+Lemma fail_outputs_connected k es x : In x (fail_outputs k es) -> exists c s, x = (MON, ActFail c s) /\ In c (m_completed k).
+Proof.
+  unfold fail_outputs. intros H. apply in_flat_map in H. destruct H as ([[c s] kind] & _ & Hx).
+  destruct (connected k c) eqn:E; [|destruct Hx]. destruct Hx as [<-|[]]. exists c, s. split; [reflexivity|].
+  unfold connected, mem in E. apply existsb_exists in E. destruct E as (y & Hy & Ey). apply N.eqb_eq in Ey. subst y. exact Hy.
+Qed.
+
+Lemma ok_outputs_connected k es x : In x (ok_outputs k es) -> exists c s, x = (MON, ActOk c s) /\ In c (m_completed k).
+Proof.
+  unfold ok_outputs. intros H. apply in_flat_map in H. destruct H as ([[c s] kind] & _ & Hx).
+  destruct (connected k c) eqn:E; cbn [andb] in Hx; [|destruct Hx]. destruct (kind =? 0); [|destruct Hx]. destruct Hx as [<-|[]]. exists c, s. split; [reflexivity|].
+  unfold connected, mem in E. apply existsb_exists in E. destruct E as (y & Hy & Ey). apply N.eqb_eq in Ey. subst y. exact Hy.
+Qed.
+
+(* a failing activation answers only requesters that are still connected *)
+Theorem activation_failure_only_to_connected k d c s :
+  In (MON, ActFail c s) (snd (mini_tick k d)) -> In c (m_completed k).
+Proof.
+  unfold mini_tick. cbn [snd]. intros H. apply in_flat_map in H. destruct H as (a & _ & Hx).
+  destruct (fail_outputs_connected k (snd a) _ Hx) as (c' & s' & E & Hin). inversion E. subst. exact Hin.
+Qed.
+
+(* hence: once a connection has been torn down, no activation outcome — failure now or later, however many
+   timers fire — is addressed to it, although its entries are still in the pending activations *)
+Theorem no_activation_error_to_departed k c active d s :
+  ~ In (MON, ActFail c s) (snd (mini_tick (fst (mini_disconnect k c active)) d)).
+Proof.
+  intros H. apply activation_failure_only_to_connected in H.
+  destruct (disconnect_cleans_up k c active) as (_ & _ & Hc & _). exact (Hc H).
+Qed.
+
+(* the same for success: StartServiceByName is answered only to connected requesters *)
+Theorem activation_success_only_to_connected k c a m w s :
+  In (MON, ActOk w s) (snd (fst (mini_dispatch k c a m))) -> In w (m_completed k).
+Proof.
+  unfold mini_dispatch.
+  destruct (mem c (m_mons k)); [intros []|].
+  destruct (str_field m DBUS_HEADER_FIELD_DESTINATION) as [d|].
+  2:{ destruct (msg_type m =? _); cbn [fst snd]; [intros [H|[]]; discriminate|intros []]. }
+  destruct (bytes_eqb d DBUS_SERVICE_DBUS_str).
+  - destruct a.
+    + destruct (is_request_name m).
+      * destruct (acquire (m_names k) (arg_string m) c _) as [[names joined] owner].
+        destruct owner; [|cbn [fst snd]; intros [H|[]]; discriminate].
+        destruct (find _ (m_acts k)) as [[[n0 f0] es]|]; cbn [fst snd].
+        -- intros [H|[H|H]]; try discriminate. destruct (ok_outputs_connected k es _ H) as (c' & s' & E & Hin). inversion E. subst. exact Hin.
+        -- intros [H|[H|[]]]; discriminate.
+      * destruct (is_start_service m).
+        { destruct (queue_of (m_names k) (arg_string m)); [destruct (service_delay (arg_string m))|]; cbn [fst snd]; intros [H|[]]; discriminate. }
+        destruct (is_add_match m).
+        { destruct (m_maxrules k <=? n_rules k c); cbn [fst snd]; [intros [H|[H|[]]]; discriminate|intros [H|[]]; discriminate]. }
+        destruct (is_become_monitor m); [|cbn [fst snd]; intros [H|[]]; discriminate].
+        unfold td_names. pose proof (release_names_outputs (owned k c) (m_names k) c (MON, ActOk w s)) as R.
+        destruct (release_names (m_names k) c (owned k c)) as [names o]. cbn [snd] in R.
+        unfold td_pending. pose proof (drop_pending_errs (m_pend (set_mons (td_rules (set_uniq (set_names k names (filter (fun p => not_c c (fst p)) (m_acq k))) (m_next k) (filter (fun p => not_c c (fst p)) (m_uniq k))) c) (c :: m_mons (td_rules (set_uniq (set_names k names (filter (fun p => not_c c (fst p)) (m_acq k))) (m_next k) (filter (fun p => not_c c (fst p)) (m_uniq k))) c)))) c (MON, ActOk w s)) as R2.
+        destruct (drop_pending _ c) as [pend errs]. cbn [fst snd] in *.
+        intros [H|[H|H]]; try discriminate. apply in_app_iff in H. destruct H as [H|H].
+        -- rewrite app_nil_r in H. destruct (R H) as (n & new & E). discriminate.
+        -- destruct (R2 H) as (a0 & s0 & E & _). discriminate.
+    + destruct (is_hello m); [|cbn [fst snd]; intros [H|[]]; discriminate].
+      destruct (negb _); [cbn [fst snd]; intros [H|[]]; discriminate|].
+      destruct (m_maxuser k <=? n_users k); cbn [fst snd]; intros [H|[H|[]]]; discriminate.
+  - destruct a; [|cbn [fst snd]; intros [H|[]]; discriminate].
+    destruct (resolve k d); [cbn [fst snd]; intros [H|[]]; discriminate|].
+    destruct (N.land (msg_flags m) DBUS_HEADER_FLAG_NO_AUTO_START =? 0); [|cbn [fst snd]; intros [H|[]]; discriminate].
+    destruct (service_delay d); cbn [fst snd]; intros [H|[]]; discriminate.
 Qed.
